@@ -262,23 +262,34 @@ fn emit_direct<T: KS>(
         opt(d.as_ref().map(|d| nodes_v(&d.1))),
     );
 }
-fn emit_same(out: &mut Out, op: &str, k: usize, stranded: bool, mode: u8, a: &Option<Nodes>, bb: &Option<Nodes>) {
+fn emit_same(out: &mut Out, op: &str, k: usize, stranded: bool, mode: u8, reads: &[LRead], a: &Option<Nodes>, bb: &Option<Nodes>) {
     match (a, bb) {
         (Some(a), Some(bb)) => out.case(op, l(vec![nu(k), b(stranded), n(mode), nodes_v(a), nodes_v(bb)]), n(1u8)),
-        _ => out.case(op, l(vec![]), V::Bot),
+        // a pipeline panicked: the line carries the reads so that the replay shows the failing input
+        _ => out.case(
+            op,
+            l(vec![
+                nu(k),
+                b(stranded),
+                n(mode),
+                a.as_ref().map(nodes_v).unwrap_or(V::Bot),
+                bb.as_ref().map(nodes_v).unwrap_or(V::Bot),
+                reads_v(reads),
+            ]),
+            V::Bot,
+        ),
     }
 }
 fn emit_exact(out: &mut Out, op: &str, k: usize, stranded: bool, thr: usize, reads: &[LRead], g: &Option<Nodes>) {
     match g {
         Some(g) => out.case(op, l(vec![nu(k), b(stranded), nu(thr), reads_v(reads), nodes_v(g)]), n(1u8)),
-        None => out.case(op, l(vec![]), V::Bot),
+        None => out.case(op, l(vec![nu(k), b(stranded), nu(thr), reads_v(reads), V::Bot]), V::Bot),
     }
 }
-
 fn emit_unitig(out: &mut Out, k: usize, stranded: bool, mode: u8, reads: &[LRead], g: &Option<Nodes>) {
     match g {
         Some(g) => out.case("chk.unitig", l(vec![nu(k), b(stranded), n(mode), reads_v(reads), nodes_v(g)]), n(1u8)),
-        None => out.case("chk.unitig", l(vec![]), V::Bot),
+        None => out.case("chk.unitig", l(vec![nu(k), b(stranded), n(mode), reads_v(reads), V::Bot]), V::Bot),
     }
 }
 
@@ -319,7 +330,7 @@ fn c04_pair<T: KS + Send + Sync, P: KS>(out: &mut Out, seed: u64, tier: &Tier, c
         emit_direct::<T>(out, &reads, stranded, thr, mode, 0, &di);
         let gs = sh.map(|s| s.fin);
         let gd = di.map(|d| d.1);
-        emit_same(out, "chk.c04", k, stranded, mode, &gs, &gd);
+        emit_same(out, "chk.c04", k, stranded, mode, &reads, &gs, &gd);
         emit_exact(out, "chk.graph_exact", k, stranded, thr, &reads, &gs);
         emit_exact(out, "chk.graph_exact", k, stranded, thr, &reads, &gd);
         emit_unitig(out, k, stranded, mode, &reads, &gs);
@@ -416,7 +427,7 @@ fn c06_pair<T: KS + Send + Sync, P: KS>(out: &mut Out, seed: u64, tier: &Tier, c
             if mi == 0 {
                 emit_direct::<T>(out, &fr, false, thr, mode, 0, &d);
             }
-            emit_same(out, "chk.c06.graph", k, false, mode, &g0, &d.map(|d| d.1));
+            emit_same(out, "chk.c06.graph", k, false, mode, &fr, &g0, &d.map(|d| d.1));
             // sharded
             let s = run_sharded::<T, P>(&fr, false, perm.as_deref(), thr, mode, variant);
             if let Some(s) = &s {
@@ -430,7 +441,7 @@ fn c06_pair<T: KS + Send + Sync, P: KS>(out: &mut Out, seed: u64, tier: &Tier, c
                 emit_exact(out, "chk.graph_exact", k, false, thr, &fr, &sf);
                 emit_unitig(out, k, false, mode, &fr, &sf);
             }
-            emit_same(out, "chk.c06.graph", k, false, mode, &g0, &sf);
+            emit_same(out, "chk.c06.graph", k, false, mode, &fr, &g0, &sf);
             // re-compressed: one node per k-mer (even masks) / compress_graph of the direct graph (odd masks)
             let route = 1 + (mask & 1) as u8;
             let r = run_direct::<T>(&fr, false, thr, mode, route);
@@ -442,7 +453,7 @@ fn c06_pair<T: KS + Send + Sync, P: KS>(out: &mut Out, seed: u64, tier: &Tier, c
                 emit_exact(out, "chk.graph_exact", k, false, thr, &fr, &rf);
                 emit_unitig(out, k, false, mode, &fr, &rf);
             }
-            emit_same(out, "chk.c06.graph", k, false, mode, &g0, &rf);
+            emit_same(out, "chk.c06.graph", k, false, mode, &fr, &g0, &rf);
         }
         // ---- stranded: exactly the forward k-mers and links, in every pipeline variant; a flipped read set is a
         // different input (no invariance is claimed), checked against ITS forward strand
